@@ -23,6 +23,15 @@ TARGETS = [
     ("fakesnow/cursor.py", "FakeSnowflakeCursor._transform", "fakesnow.cursor.FakeSnowflakeCursor._transform"),
     ("fakesnow/cursor.py", "FakeSnowflakeCursor.execute", "fakesnow.cursor.FakeSnowflakeCursor.execute"),
     ("fakesnow/cursor.py", "FakeSnowflakeCursor.executemany", "fakesnow.cursor.FakeSnowflakeCursor.executemany"),
+    ("fakesnow/cursor.py", "FakeSnowflakeCursor.__init__", "fakesnow.cursor.FakeSnowflakeCursor.__init__"),
+    ("fakesnow/cursor.py", "FakeSnowflakeCursor.__enter__", "fakesnow.cursor.FakeSnowflakeCursor.__enter__"),
+    ("fakesnow/cursor.py", "FakeSnowflakeCursor.__exit__", "fakesnow.cursor.FakeSnowflakeCursor.__exit__"),
+    ("fakesnow/conn.py", "FakeSnowflakeConnection.cursor", "fakesnow.conn.FakeSnowflakeConnection.cursor"),
+    ("fakesnow/conn.py", "FakeSnowflakeConnection.close", "fakesnow.conn.FakeSnowflakeConnection.close"),
+    ("fakesnow/instance.py", "FakeSnow.connect", "fakesnow.instance.FakeSnow.connect"),
+    ("fakesnow/cursor.py", "FakeSnowflakeCursor._describe_last_sql", "fakesnow.cursor.FakeSnowflakeCursor._describe_last_sql"),
+    ("fakesnow/conn.py", "FakeSnowflakeConnection.commit", "fakesnow.conn.FakeSnowflakeConnection.commit"),
+    ("fakesnow/conn.py", "FakeSnowflakeConnection.rollback", "fakesnow.conn.FakeSnowflakeConnection.rollback"),
 ]
 
 T = {cn.split("fakesnow.", 1)[1]: (rel, q, cn) for rel, q, cn in TARGETS}
